@@ -1,5 +1,5 @@
 ENGINES = [
-    {'name': 'E1-enum', 'path': 'mc/engine_enum.py', 'serves_properties': ['C01', 'C02', 'C04', 'C05', 'C06', 'C07', 'C08', 'C09', 'C12', 'C13', 'C14', 'C19'],
+    {'name': 'E1-enum', 'path': 'mc/engine_enum.py', 'serves_properties': ['C01', 'C02', 'C04', 'C05', 'C06', 'C07', 'C08', 'C09', 'C12', 'C13', 'C14', 'C19', 'C20'],
      'kind_free_text': 'sharded exhaustive enumeration of a finite input/configuration space of the real code against a reference model'},
     {'name': 'E3-dev', 'path': 'mc/checks/c17.py', 'serves_properties': ['C13', 'C17'],
      'kind_free_text': 'deviation-bounded / fault-point enumeration: the harness owns every environment answer (truncation point, corrupted byte, failing write, clock, consumer delay) and enumerates all runs up to a deviation bound'},
@@ -100,3 +100,9 @@ CHECKS['C17'] = dict(
     technique='exhaustive fault enumeration: every truncation offset and corrupted byte of a saved file on load, every position of an unstorable message and every failing write on save, with a charset probe after each call',
     text='For 8 charsets x 9 texts x 9 text-carrying meta types the saved payload (decoded by the reference SMF decoder) must equal text.encode(charset) and load back unchanged. Then every place a load or save can fail is enumerated - each prefix of the file, each track byte corrupted, bad chunk names, the n-th message unstorable or unencodable for every n, the output file failing on its k-th write for every k - under the default ambient charset and inside an outer meta_charset block; after every call, succeeded or raised, the public MetaMessage text codec must behave as under the ambient charset.',
     note='Charsets limited to eight; probing through MetaMessage.bytes()/from_bytes only.')
+
+CHECKS['C20'] = dict(
+    engine='E1-enum', category='exploration', design_ref='DESIGN.md 5/C20',
+    technique='complete enumeration of the finite configuration grid with recording fake backend modules on sys.path against a pure reference function',
+    text='All 26 112 configurations of (backend given as argument / MIDO_BACKEND, with or without an API suffix or keyword, a competing MIDO_BACKEND) x use_environ x each default-port variable set/unset x port name given/absent x explicit api in the call x module with/without native IOPort and get_devices x load x six operations, plus set_backend rebinding, are executed against fake backend modules that record imports, constructor calls and device queries; a pure reference function written from docs/backends states the expected import moment, names, api injection, name lists and wrapper fallback.',
+    note='Empty-string environment values and api given twice are outside the grid (undefined by the docs); the wrapper fallback may pass extra keywords.')
